@@ -447,7 +447,18 @@ func Run(r *mc.Run) {
 		"\n   * first item\n   * second item\n .\n .\n", " one\n .\n two\n", "\n .\n after an empty line\n", " \t tabbed first\n\tcont\n",
 		"\n\tonly a tab line\n", " x\n .\n", " x\n .\n .\n .\n", "   three blanks first\n", " a\n  b\n   c\n", "\n .\n", " trailing blanks   \n", " v\n \t.\n w\n",
 	} {
-		wdocs = append(wdocs, "Package: x\nHomepage:"+val+"X-Other: z\n", "Bugs:"+val+"Package: x\n", "Package: x\nsection: lower\nSection:"+val)
+		wdocs = append(wdocs, "Package: x\nHomepage:"+val+"X-Other: z\n", "Bugs:"+val+"Package: x\n", "Package: x\nsection: lower\nSection:"+val,
+			"Package: x\nDescription:"+val+"X-Other: z\n")
+	}
+	// typed members that are present but empty (one, two, all of them; first, in the middle, last), with fields the struct
+	// does not know before, between and behind them; and paragraphs that lack the members altogether
+	for _, d := range []string{
+		"Package: x\nHomepage:\nSection:\nX-After: y\n", "Homepage:\nPackage: x\nSection:\nBugs:\nX-After: y\nX-Last: z\n",
+		"Package: x\nHomepage:\nX-Mid: m\nSection:\nX-After: y\n", "Package: x\nX-A: a\nX-B: b\nHomepage:\nBugs:\nDescription:\nX-C: c\nX-D: d\nX-E: e\n",
+		"Package: x\nHomepage: h\nSection:\nBugs:\nX-After: y\n", "Package: x\nSection:\nBugs: b\nHomepage:\n", "Package: x\n", "X-Only: y\n",
+		"Package: x\nDescription: short\n long\n .\n more\nX-After: y\n", "Package: x\nDescription:\n long only\nX-After: y\n", "Package: x\nDescription: short\n",
+	} {
+		wdocs = append(wdocs, d)
 	}
 	r.Scenario("typed-wrapper-over-raw-paragraph", map[string]interface{}{"documents": len(wdocs), "members": "Homepage Section Bugs", "note": "read, encode the struct, read: same fields in the same order with the same values (up to one trailing newline), no blank line inside the written paragraph"}, len(wdocs), func(i int, st *mc.Stats) bool {
 		st.Evals++
@@ -584,6 +595,7 @@ type wrapped struct {
 	Homepage string
 	Section  string
 	Bugs     string `control:"Bugs"`
+	Long     string `control:"Description" multiline:"true"`
 }
 
 // checkWrapped: read doc, decode it into the struct, encode the struct, read again.
@@ -620,7 +632,17 @@ func checkWrapped(scen, doc string) ([]*mc.Violation, string) {
 		}
 		return o
 	}
-	if a, b := gen.CanonRef([]gen.RefPara{{Order: orig[0].Order, Values: upTo(orig[0].Values)}}), gen.CanonRef([]gen.RefPara{{Order: back[0].Order, Values: upTo(back[0].Values)}}); a != b {
+	// a typed member whose value is empty is an optional zero field: it is omitted (C09's rule), everything else stays
+	want := gen.RefPara{Values: map[string]string{}}
+	for _, k := range orig[0].Order {
+		typed := k == "Homepage" || k == "Section" || k == "Bugs" || k == "Description"
+		if typed && strings.TrimSpace(orig[0].Values[k]) == "" {
+			continue
+		}
+		want.Order = append(want.Order, k)
+		want.Values[k] = orig[0].Values[k]
+	}
+	if a, b := gen.CanonRef([]gen.RefPara{{Order: want.Order, Values: upTo(want.Values)}}), gen.CanonRef([]gen.RefPara{{Order: back[0].Order, Values: upTo(back[0].Values)}}); a != b {
 		clause, feats := "same-fields-same-order", []string(nil)
 		if strings.Join(orig[0].Order, "\x00") == strings.Join(back[0].Order, "\x00") {
 			clause = "same-logical-lines"
